@@ -192,7 +192,7 @@ impl Exec {
         let payer = if who < 3 { U[who] } else { "donor" };
         let before_user = self.w.bal(payer, D[denom]);
         let guard = if who < 3 { guard_rejects(&self.w, U[who]) } else { false };
-        let pre_records = if let Ev::Withdraw { who, denom } = e { if *denom < 2 { all_unbonding(&self.w, U[*who], D[*denom]) } else { vec![] } } else { vec![] };
+        let pre_records = if let Ev::Withdraw { who, denom } | Ev::Unbond { who, denom, .. } = e { if *denom < 2 { all_unbonding(&self.w, U[*who], D[*denom]) } else { vec![] } } else { vec![] };
         let pre_withdrawable = if let Ev::Withdraw { who, denom } = e { self.w.q_withdrawable(U[*who], D[*denom]) } else { None };
         let classify = |e: &anyhow::Error| classify_text(&format!("{:#}", e));
         let (term, r) = match e {
@@ -236,6 +236,16 @@ impl Exec {
                     if self.last_unbond == Some((*who, *denom, t)) { self.same_block_unbonds += 1; out.count("unbond:same_block_same_key"); }
                     self.last_unbond = Some((*who, *denom, t));
                     if delta != 0 { out.monitor_fail("C08", "unbond moved funds", replay.clone()); }
+                    // the unbonded amount waits a full unbonding period from NOW: it is booked under the current block time (a new record, or
+                    // the record of this very block grows by it) and no record of an earlier time changes
+                    if *denom < 2 {
+                        let post = all_unbonding(&self.w, U[*who], D[*denom]);
+                        let at = |v: &Vec<(u64, u128)>, ts: u64| -> u128 { v.iter().filter(|x| x.0 == ts).map(|x| x.1).sum() };
+                        if at(&post, t) != at(&pre_records, t) + *amount { out.monitor_fail("C08", &format!("the unbonded amount {} is not booked under the current block time {}", amount, t), replay.clone()); }
+                        if pre_records.iter().any(|x| x.0 != t && at(&post, x.0) != at(&pre_records, x.0)) || post.iter().any(|x| x.0 != t && at(&pre_records, x.0) != at(&post, x.0)) {
+                            out.monitor_fail("C08", "an Unbond changed an unbonding record of another time", replay.clone());
+                        }
+                    }
                 }
                 Ev::Withdraw { who, denom } => {
                     if *denom < 2 { self.tr.paid[*who][*denom] += delta.max(0) as u128; }
